@@ -1,7 +1,7 @@
 #!/bin/bash
 # usage: tools/confirm_seeded.sh C16   — confirm a sub-agent's seeded change in its scratch worktree, then store it under seeded/<id>/
 set -u
-id="$1"; wt=/var/tmp/mut/$id; work=/var/tmp/mut/$id.work; out=/verif/seeded/$id
+id="$1"; base="${2:-/var/tmp/mut}"; sfx="${3:-}"; wt=$base/$id; work=$base/$id.work; out=/verif/seeded/$id$sfx
 [ -f "$work/patch.diff" ] || { echo "$id: no patch"; exit 2; }
 demo=$(ls $work/demo.py $work/demo.sh 2>/dev/null | head -1)
 run_demo() { if [[ "$demo" == *.py ]]; then (cd $work && NANOEMOJI_SRC="$1" PATH=/venv/bin:$PATH timeout 900 /venv/bin/python "$demo" >/dev/null 2>&1); else (cd $work && NANOEMOJI_SRC="$1" PATH=/venv/bin:$PATH timeout 900 bash "$demo" >/dev/null 2>&1); fi; echo $?; }
@@ -19,7 +19,7 @@ import json,sys
 id,work,out,c,m,t=sys.argv[1:7]
 try: meta=json.load(open(work+"/meta.json"))
 except Exception: meta={"property":id}
-meta["confirmed"]={"demo_on_unmodified_rc":int(c),"demo_on_mutated_rc":int(m),"test_suite_with_change":t,"how":"tools/confirm_seeded.sh in the scratch worktree /var/tmp/mut/"+id}
+meta["confirmed"]={"demo_on_unmodified_rc":int(c),"demo_on_mutated_rc":int(m),"test_suite_with_change":t,"how":"tools/confirm_seeded.sh in the scratch worktree of the sub-agent (clean demo, mutated demo, full test suite)"}
 json.dump(meta,open(out+"/meta.json","w"),indent=1)
 PY
   echo "$id: stored in $out"
